@@ -100,11 +100,17 @@ func (x *rx) givenBatch(call *ast.CallExpr, bp batchParam, batch loc) bool {
 		l, ok := x.locOf(arg)
 		return ok && l == batch
 	}
-	u, ok := arg.(*ast.UnaryExpr)
-	if !ok || u.Op.String() != "&" {
+	// the holder: `&h`, or an expression that is itself a pointer to it (a pointer local stands for its pointee:
+	// selections through it have the same field path)
+	holder := arg
+	if u, isAddr := arg.(*ast.UnaryExpr); isAddr && u.Op.String() == "&" {
+		holder = u.X
+	} else if t := x.info.TypeOf(arg); t == nil {
+		return false
+	} else if _, isPtr := t.Underlying().(*types.Pointer); !isPtr {
 		return false
 	}
-	l, ok := x.locOf(u.X)
+	l, ok := x.locOf(holder)
 	if !ok || l.root != batch.root {
 		return false
 	}
@@ -159,7 +165,32 @@ func (x *rx) resetsInPlace(bp batchParam) (ok, known bool) {
 		return false
 	}
 	ok, _ = c07.MustPass(g, g.Entry(), false, isReset)
+	if !ok && len(g.Points(func(n ast.Node) bool { return x.handsHolder(n, bp) })) > 0 {
+		known = false // the holder is handed to a function or method that is not followed: it may reset the batch
+	}
 	return ok, known
+}
+
+// handsHolder: executing n calls something that is handed the pointer through which writeSend received the batch
+// (as receiver or argument): what happens to the batch there is not followed.
+func (x *rx) handsHolder(n ast.Node, bp batchParam) bool {
+	for _, call := range cfgq.ExecCalls(n) {
+		if sel, ok := ast.Unparen(call.Fun).(*ast.SelectorExpr); ok {
+			if s := x.info.Selections[sel]; s != nil && s.Kind() == types.MethodVal {
+				if l, isL := x.locOf(sel.X); isL && l.root == bp.at.root && l.path == "" {
+					return true
+				}
+			}
+		}
+		for _, a := range call.Args {
+			if l, isL := x.locOf(a); isL && l.root == bp.at.root && l.path == "" {
+				if _, isB := core.Callee(x.info, call).(*types.Builtin); !isB {
+					return true
+				}
+			}
+		}
+	}
+	return false
 }
 
 // isBatchIn: inside writeSend, e denotes the batch that was handed in: the parameter location itself, or a local
